@@ -61,21 +61,18 @@ def alpha_disjoint(t, env, seen=()):
         chars = set(map(ord, " 0123456789"))      # the implicit alphabet of a NumericString that gets its own PER constraint
     return sum(1 for c in chars if c - 1 not in chars) >= 2
 
-def set_default_zero(t, env, seen=()):
-    """does t contain a SET with a DEFAULT 0 member of INTEGER/ENUMERATED type?  (stored inline by the native
-    representation, so always emitted by SET_encode_xer in BASIC-XER; a NULL pointer in the wide one, skipped: F76.
-    CANONICAL-XER skips a member that holds its default value in both representations - F56, repaired)"""
+def ext_unsigned_integer(t, env, seen=()):
+    """does t contain an INTEGER (lb..MAX, ...), lb >= 0, i.e. an EXTENSIBLE unsigned range?  Natively an unsigned long with
+    field_unsigned; under -fwide-types an INTEGER_t WITHOUT field_unsigned (asn1c_type_fits_long gives up on an extensible range
+    under -fwide-types, and an extension value may be negative), so values >= 2^63 still go through asn_INTEGER2long /
+    asn_INTEGER2imax there: the remainder of F172 / F173 (repaired for the non-extensible range), proposed findings F174 / F175"""
     k = t["k"]
     if k == "REF":
-        return False if t["name"] in seen else set_default_zero(env[t["name"]], env, seen + (t["name"],))
-    if k in ("SEQUENCE", "SET", "CHOICE"):
-        for c in t["comps"]:
-            if k == "SET" and isinstance(c.get("opt"), tuple) and c["opt"][2] == 0 and genmod.resolve_kind(c["type"], env) in ("INTEGER", "ENUMERATED"):
-                return True
-            if set_default_zero(c["type"], env, seen): return True
-        return False
-    if k in ("SEQUENCE OF", "SET OF"): return set_default_zero(t["elem"], env, seen)
-    return False
+        return False if t["name"] in seen else ext_unsigned_integer(env[t["name"]], env, seen + (t["name"],))
+    if k in ("SEQUENCE", "SET", "CHOICE"): return any(ext_unsigned_integer(c["type"], env, seen) for c in t["comps"])
+    if k in ("SEQUENCE OF", "SET OF"): return ext_unsigned_integer(t["elem"], env, seen)
+    c = t.get("cons") if k == "INTEGER" else None
+    return bool(c and c["ext"] and c["lo"] is not None and c["lo"] >= 0 and c["hi"] is None)
 
 def explicit_ulong_member(t, env, tagdefault, seen=()):
     """does t contain a member `[n] EXPLICIT INTEGER (lb..MAX)` (lb >= 0)?  Natively an unsigned long with its own
@@ -98,23 +95,22 @@ def explicit_ulong_member(t, env, tagdefault, seen=()):
 
 def known_region(st, env, tn, syn, opts):
     # (former region F77 — `[n] EXPLICIT INTEGER (lb..MAX)` tagged twice natively, once under -fwide-types — is repaired
-    #  together with F49 and compared like everything else)
-    if syn == "xer" and WIDE in opts and set_default_zero(env[tn], env):
-        st.skipped["F76"] += 1
-        return True
+    #  together with F49 and compared like everything else; so is former region F76 — BASIC-XER of a SET with a DEFAULT 0
+    #  INTEGER/ENUMERATED member, inline natively and a NULL pointer under -fwide-types: SET_encode_xer now writes the default
+    #  value of an absent member like SEQUENCE_encode_xer)
     return False
 
 _INT_ATOM = re.compile(r"\(int (\d{19,})\)")
 def holds_ge_2_63(sx):
-    """does the value hold an INTEGER >= 2^63?  (a native `unsigned long` can, e.g. INTEGER (0..MAX); the -fwide-types build
-    of the same type is an INTEGER_t whose descriptor has no field_unsigned, so that INTEGER_encode_uper (F172) and
-    INTEGER__dump (F173) go through asn_INTEGER2long / asn_INTEGER2imax)"""
+    """does the value hold an INTEGER >= 2^63?  (a native `unsigned long` can, e.g. INTEGER (0..MAX))"""
     return any(int(x) >= (1 << 63) for x in _INT_ATOM.findall(sx))
 
-def known_value_region(st, syn, opts, sx):
-    if WIDE in opts and holds_ge_2_63(sx):
-        if syn == "uper": st.skipped["F172"] += 1; return True
-        if syn in ("xer", "cxer"): st.skipped["F173"] += 1; return True
+def known_value_region(st, env, tn, syn, opts, sx):
+    """F172 / F173 are repaired for INTEGER (lb..MAX): its -fwide-types descriptor has field_unsigned like the native one.  What is
+    left is the EXTENSIBLE unsigned range (see ext_unsigned_integer) holding 2^63 or more under -fwide-types"""
+    if WIDE in opts and holds_ge_2_63(sx) and ext_unsigned_integer(env[tn], env):
+        if syn == "uper": st.skipped["F174"] += 1; return True
+        if syn in ("xer", "cxer"): st.skipped["F175"] += 1; return True
     return False
 
 # ---------------------------------------------------------------------------------- module transforms
@@ -166,6 +162,19 @@ class Erase:
 def _field(sx, name):
     return next((e for e in sx if isinstance(e, list) and e and e[0] == name), None)
 
+def _unsigned_only_spec_erasable(spec, per, er):
+    """a specifics record that says nothing but field_unsigned.  Natively every INTEGER kept in an unsigned long has one; under
+    -fwide-types the INTEGER_t of a non-extensible (lb..MAX) range has it too since the repair of F172 / F173 (and (0..4294967295)
+    always had), so it is compared; what may still differ is the EXTENSIBLE range (proposed F174 / F175: the -fwide-types
+    descriptor has no specifics) - and a build without PER tables does not tell whether the range is extensible"""
+    flat = [x for x in spec[1:] if not isinstance(x, list)]
+    maps = [x for x in spec[1:] if isinstance(x, list)]
+    if not (all(not mm for mm in maps) and "strict=0" in flat and "ext=0" in flat): return False
+    if "unsigned=0" in flat or er.noper: return True
+    if per is None or len(per) < 2 or not isinstance(per[1], list): return True
+    try: return bool(int(per[1][0]) & 4)       # APC_EXTENSIBLE
+    except ValueError: return True
+
 def _canon_ec(e, er):
     """(per ...) / (oer ...) record -> canonical, or None when erased"""
     if e[0] == "per":
@@ -188,10 +197,7 @@ def canon_descr(sx, er, parent_kind=None):
                     e = _canon_ec(e, er)
                     if e is None: continue
                 elif e[0] == "spec":
-                    if er.wide and ckind == "int":
-                        flat = [x for x in e[1:] if not isinstance(x, list)]
-                        maps = [x for x in e[1:] if isinstance(x, list)]
-                        if all(not mm for mm in maps) and "strict=0" in flat and "ext=0" in flat: continue
+                    if er.wide and ckind == "int" and _unsigned_only_spec_erasable(e, _field(sx, "per"), er): continue
                     e = [x for x in e if not (isinstance(x, list) and x and ((x[0] == "canon" and er.noper) or (x[0] == "omsinfo" and er.noper and er.nooer)))]
                 elif e[0] == "members":
                     e = ["members"] + [canon_descr(mm, er, kind) for mm in e[1:]]
@@ -225,8 +231,9 @@ def canon_descr(sx, er, parent_kind=None):
             eff = list(ttags) if mode == 0 else [tag] + list(ttags[1:] if mode == -1 else ttags)
             spec = _field(ty, "spec")
             if spec is not None and ckind == "int":
-                flat = [x for x in spec[1:] if not isinstance(x, list)]
-                if all(not mm for mm in spec[1:] if isinstance(mm, list)) and "strict=0" in flat and "ext=0" in flat: spec = None
+                mper = _field(sx, "per")
+                if mper is None or (len(mper) == 2 and mper[1] == "-"): mper = _field(ty, "per")
+                if _unsigned_only_spec_erasable(spec, mper, er): spec = None
             out.append(["leaf", ckind, ["efftags"] + eff, spec])
         else:
             out.append(canon_descr(ty, er))
@@ -247,6 +254,7 @@ def descr_diff(a, b, path=""):
     return f"{path}: {_short(a)} vs {_short(b)}"
 
 def _short(x):
+    if x is None: return "-"
     s = x if isinstance(x, str) else "(" + " ".join(_short(y) if not isinstance(y, list) else "(..)" for y in x[:6]) + ")"
     return s[:80]
 
@@ -360,7 +368,7 @@ def run_module(ctx, st, m, bvals, sets, nvals, try_nocompound=True):
                                                                 "output_a": r, "output_b": o, "failure": "descriptor differs in a field the options must not change: " + d[:300]})
                     continue
                 if kind != "enc" or (tn, sx) in unrep or not syn_ok(Bo, syn): continue
-                if known_region(st, env, tn, syn, Bo) or known_value_region(st, syn, Bo, sx): continue
+                if known_region(st, env, tn, syn, Bo) or known_value_region(st, env, tn, syn, Bo, sx): continue
                 if o and o.startswith("ok "): declines.setdefault((tn, syn, o[3:]), sx)
                 if k == 0: continue
                 st.stats["enc_compared"] += 1
@@ -398,6 +406,7 @@ def run_module(ctx, st, m, bvals, sets, nvals, try_nocompound=True):
                 if not syn_ok(Bo, syn) or known_region(st, env, tn, syn, Bo): continue
                 o, r = douts[k][j], dref[j]
                 sx = declines[(tn, syn, hx)]
+                if known_value_region(st, env, tn, syn, Bo, sx): continue      # the decimal text of 2^63.. does not decode without field_unsigned either
                 good = _dec_good(env[tn], o, hx, syn, sx, env)
                 if k == 0:
                     st.stats["dec_self_ok" if good else "dec_self_not_ok(C01 territory)"] += 1
@@ -475,6 +484,14 @@ def focus_module(rng):
                                       {"id": "l", "type": T("SEQUENCE OF", elem=T("REF", name="FCh"), size=None), "opt": "OPTIONAL"}])),
         ("FSoI", T("SEQUENCE OF", elem=T("INTEGER", cons=None), size=None)),
         ("FSoR", T("SET OF", elem=T("REAL"), size=None)),
+        # unsigned ranges whose -fwide-types descriptor has field_unsigned since the repair of F172 / F173: lower bound 0 and not 0, as a
+        # member, as an element; FUx is the extensible range that is left without it (proposed F174 / F175 from 2^63 on)
+        ("FU5", T("INTEGER", cons=C(5, None))), ("FUx", T("INTEGER", cons=C(0, None, True))),
+        ("FSoU", T("SEQUENCE OF", elem=T("REF", name="FU"), size=None)),
+        # SET with DEFAULT members: 0 / FALSE defaults are inline natively and NULL pointers under -fwide-types (former region F76)
+        ("FSt", T("SET", comps=[{"id": "i", "type": T("INTEGER", cons=None)}, {"id": "e", "type": T("ENUMERATED", items=[("m", None), ("n", None)]), "opt": ("DEFAULT", "m", 0)},
+                                {"id": "z", "type": T("INTEGER", cons=C(0, 255)), "opt": ("DEFAULT", "0", 0)}, {"id": "b", "type": T("BOOLEAN"), "opt": ("DEFAULT", "FALSE", False)},
+                                {"id": "j", "type": T("INTEGER", cons=None), "opt": ("DEFAULT", "7", 7)}, {"id": "u", "type": T("INTEGER", cons=C(0, None)), "opt": "OPTIONAL"}])),
     ]
     m = {"name": "FOC", "tagdefault": "AUTOMATIC", "types": types}
     env = dict(types)
@@ -494,6 +511,8 @@ def focus_module(rng):
             "FSeqE": [{"er": -5}, {"er": -1, "ei": -1, "ed": -4, "el": [-2, -128, -2147483648], "ec": ("ee", -9)}, {"er": 300, "ei": -7, "el": [], "ec": ("ee", 0)},
                       {"er": 7, "ei": 2, "ed": -4, "el": [-129, -32769], "ec": ("ee", 4)}, {"er": -5, "ec": ("ee", -7)}, {"er": 0, "ec": ("eb", True)}],
             "FSoE": [[], [-3], [-2, 5, -3, -3]]}
+    vals["FU5"] = [v for v in uints if v >= 5]; vals["FUx"] = uints; vals["FSoU"] = [[], uints[:5], uints[-5:]]
+    vals["FSt"] = [{"i": 1}, {"i": -1, "e": 0, "z": 0, "b": False, "j": 7}, {"i": 2, "e": 1, "z": 9, "b": True, "j": 8, "u": 2 ** 63}, {"i": 3, "z": 0, "u": 2 ** 64 - 1}, {"i": 4, "j": 7, "e": 1}]
     vals["FSeq"] = [{"i": -129, "c": ("a", 5)}, {"i": 2 ** 63 - 1, "u": 2 ** 63 - 1, "e": 1, "r": reals[9], "c": ("d", {"x": 7, "y": False}), "l": [("a", 1), ("b", reals[4]), ("c", 1), ("e", b"\xff")]},
                     {"i": 0, "u": 0, "c": ("c", 2), "l": []},
                     {"i": -1, "u": 2 ** 63, "c": ("d", {"x": 2 ** 64 - 1})}, {"i": 1, "u": 2 ** 64 - 1, "c": ("a", 0), "l": [("d", {"x": 2 ** 63 + 5})]}]
@@ -501,20 +520,29 @@ def focus_module(rng):
 
 # ---------------------------------------------------------------------------------- witnesses of the findings proposed for C13
 WITNESSES = {
-    "F172": {"module": "W DEFINITIONS AUTOMATIC TAGS ::= BEGIN U ::= INTEGER (0..MAX) END", "type": "U", "op": "enc uper (int 9223372036854775808)",
-             "options_a": list(BASE), "options_b": list(BASE) + [WIDE], "expect_a": "ok 088000000000000000", "expect_b": "fail EBADF U"},
-    "F173": {"module": "W DEFINITIONS AUTOMATIC TAGS ::= BEGIN U ::= INTEGER (0..MAX) END", "type": "U", "op": "enc cxer (int 9223372036854775808)",
+    # the remainder of F172 / F173 (proposed F174 / F175): the EXTENSIBLE unsigned range keeps a -fwide-types descriptor without field_unsigned
+    "F174": {"module": "W DEFINITIONS AUTOMATIC TAGS ::= BEGIN U ::= INTEGER (0..MAX, ...) END", "type": "U", "op": "enc uper (int 9223372036854775808)",
+             "options_a": list(BASE), "options_b": list(BASE) + [WIDE], "expect_a": "ok 04400000000000000000", "expect_b": "fail EBADF U"},
+    "F175": {"module": "W DEFINITIONS AUTOMATIC TAGS ::= BEGIN U ::= INTEGER (0..MAX, ...) END", "type": "U", "op": "enc cxer (int 9223372036854775808)",
              "options_a": list(BASE), "options_b": list(BASE) + [WIDE], "expect_a": "ok " + b"<U>9223372036854775808</U>".hex(),
              "expect_b": "ok " + b"<U>00:80:00:00:00:00:00:00:00</U>".hex()},
-    "F76": {"module": "W DEFINITIONS AUTOMATIC TAGS ::= BEGIN T ::= SET { i INTEGER, e ENUMERATED { m, n } DEFAULT m } END", "type": "T",
-            "op": "enc xer (set (i (int 1)))", "options_a": list(BASE), "options_b": list(BASE) + [WIDE],
-            "expect_a": "ok " + b"<T>\n    <i>1</i>\n    <e><m/></e>\n</T>\n".hex(), "expect_b": "ok " + b"<T>\n    <i>1</i>\n</T>\n".hex()},
     "F77": {"module": "W DEFINITIONS ::= BEGIN S ::= SEQUENCE { a [5] EXPLICIT INTEGER (0..MAX) } END", "type": "S", "op": "enc der (seq (a (int 1)))",
             "options_a": list(BASE), "options_b": list(BASE) + [WIDE], "expect_a": "ok 3007a505a503020101", "expect_b": "ok 3005a503020101"},
 }
 
-# former witnesses of the repaired findings F74 / F75 (-fno-constraints): same encodings as the default build
+# former witnesses of the repaired findings F74 / F75 (-fno-constraints), F172 / F173 (INTEGER (0..MAX) at 2^63 under -fwide-types) and
+# F76 (BASIC-XER of a SET with an absent DEFAULT member): same encodings as the default build
+U63 = "(int 9223372036854775808)"; U64 = "(int 18446744073709551615)"
 FORMER = {
+    "F172": {"module": "W DEFINITIONS AUTOMATIC TAGS ::= BEGIN U ::= INTEGER (0..MAX) V ::= INTEGER (5..MAX) S ::= SEQUENCE { u INTEGER (0..MAX), l SEQUENCE OF U } END",
+             "type": "U", "ops": [f"enc uper {U63}", f"enc uper {U64}", "enc uper (int 0)", f"enc oer {U63}", f"enc der {U64}"], "options_b": list(BASE) + [WIDE],
+             "expect": {f"enc uper {U63}": "ok 088000000000000000", f"enc uper {U64}": "ok 08ffffffffffffffff"}},
+    "F173": {"module": "W DEFINITIONS AUTOMATIC TAGS ::= BEGIN U ::= INTEGER (0..MAX) END", "type": "U",
+             "ops": [f"enc cxer {U63}", f"enc xer {U64}", "enc xer (int 0)"], "options_b": list(BASE) + [WIDE],
+             "expect": {f"enc cxer {U63}": "ok " + b"<U>9223372036854775808</U>".hex()}},
+    "F76": {"module": "W DEFINITIONS AUTOMATIC TAGS ::= BEGIN T ::= SET { i INTEGER, e ENUMERATED { m, n } DEFAULT m } END", "type": "T",
+            "ops": ["enc xer (set (i (int 1)))", "enc xer (set (i (int 1)) (e (enum 0)))", "enc cxer (set (i (int 1)))", "enc xer (set (i (int 1)) (e (enum 1)))"],
+            "options_b": list(BASE) + [WIDE], "expect": {"enc xer (set (i (int 1)))": "ok " + b"<T>\n    <i>1</i>\n    <e><m/></e>\n</T>\n".hex()}},
     "F74": {"module": "W DEFINITIONS AUTOMATIC TAGS ::= BEGIN S ::= SEQUENCE { a INTEGER (0..7) } END", "type": "S",
             "ops": ["enc uper (seq (a (int 5)))", "enc oer (seq (a (int 5)))", "enc der (seq (a (int 5)))"], "options_b": list(BASE) + [NOCONS]},
     "F75": {"module": 'W DEFINITIONS AUTOMATIC TAGS ::= BEGIN N ::= NumericString (FROM("0".."3"|" ")) END', "type": "N",
@@ -529,7 +557,7 @@ def replay_former_witnesses(ctx, st):
             bad = next((e for _, e in r if isinstance(e, Exception)), None)
             if bad is not None:
                 msg = getattr(bad, "out", None) or str(bad)
-                st.fail(("build", optname((NOCONS,)), "does not build"), {"module": w["module"], "options_a": list(BASE), "options_b": w["options_b"],
+                st.fail(("build", optname(tuple(o for o in w["options_b"] if o not in BASE)), "does not build"), {"module": w["module"], "options_a": list(BASE), "options_b": w["options_b"],
                         "failure": f"former witness of {fid} does not build", "output_b": msg[-1500:]})
                 continue
             for op in w["ops"]:
@@ -537,7 +565,7 @@ def replay_former_witnesses(ctx, st):
                 oa = ctx.run_c_bisect(r[0][1], [line])[0][0]; ob = ctx.run_c_bisect(r[1][1], [line])[0][0]
                 want = w.get("expect", {}).get(op)
                 if oa != ob or not str(oa).startswith("ok ") or (want and oa != want):
-                    st.fail(("enc", optname((NOCONS,)), "different encoding"), {"module": w["module"], "type": w["type"], "op": line, "options_a": list(BASE),
+                    st.fail(("enc", optname(tuple(o for o in w["options_b"] if o not in BASE)), "different encoding"), {"module": w["module"], "type": w["type"], "op": line, "options_a": list(BASE),
                             "options_b": w["options_b"], "failure": f"former witness of {fid}: encodings differ", "output_a": oa, "output_b": ob})
                 else: st.stats["former_witness_ops_equal"] += 1
         finally:
